@@ -11,6 +11,8 @@ import (
 	"os/exec"
 	"strconv"
 	"strings"
+	"sync/atomic"
+	"time"
 
 	"golang.org/x/perf/internal/verifh/hx"
 )
@@ -31,6 +33,9 @@ func preLine(id, idx int, c *Case) {
 	hx.Printf("pre %d idx=%d kind=run args=%s files=%s crashed=1 tag=%s\n", id, idx, hx.HexListS(args), strings.Join(fileParts, ","), sortedTags(c))
 	hx.Flush()
 }
+
+// caseLimit is the wall limit of one case in the child.
+var caseLimit = 150 * time.Second
 
 func firstPanicLine(stderr []byte) string {
 	for _, l := range strings.Split(string(stderr), "\n") {
@@ -63,6 +68,27 @@ func parentLoop() {
 			fmt.Fprintln(os.Stderr, err)
 			os.Exit(3)
 		}
+		// watchdog: a case that makes no progress for caseLimit is a hang of the real code
+		var lastPre atomic.Int64
+		lastPre.Store(time.Now().UnixNano())
+		var killed atomic.Bool
+		stopDog := make(chan struct{})
+		go func() {
+			t := time.NewTicker(time.Second)
+			defer t.Stop()
+			for {
+				select {
+				case <-stopDog:
+					return
+				case <-t.C:
+					if time.Since(time.Unix(0, lastPre.Load())) > caseLimit {
+						killed.Store(true)
+						cmd.Process.Kill()
+						return
+					}
+				}
+			}
+		}()
 		rd := bufio.NewReaderSize(out, 1<<20)
 		var pre string    // the pre line of the case in progress
 		var cur []string  // its lines so far
@@ -88,6 +114,7 @@ func parentLoop() {
 				line = strings.TrimSuffix(line, "\n")
 				if strings.HasPrefix(line, "pre ") {
 					flushCase()
+					lastPre.Store(time.Now().UnixNano())
 					pre = line
 					f := strings.Fields(line)
 					curID = f[1]
@@ -108,6 +135,7 @@ func parentLoop() {
 			}
 		}
 		werr := cmd.Wait()
+		close(stopDog)
 		if werr == nil {
 			flushCase()
 			return
@@ -119,7 +147,11 @@ func parentLoop() {
 			os.Exit(3)
 		}
 		hx.Printf("case %s\n", strings.TrimPrefix(pre, "pre "))
-		hx.Printf("crash %s in-process: %s\n", curID, firstPanicLine(stderr.Bytes()))
+		if killed.Load() {
+			hx.Printf("crash %s hang: the case made no progress for %v (child killed)\n", curID, caseLimit)
+		} else {
+			hx.Printf("crash %s in-process: %s\n", curID, firstPanicLine(stderr.Bytes()))
+		}
 		crashes++
 		if crashes > 200 {
 			fmt.Fprintln(os.Stderr, "too many crashes")
